@@ -1,3 +1,5 @@
+//go:debug rsa1024min=0
+
 // Command sig0 binds spec/Sig0.tla to the real SIG(0) code (property C18).
 //
 //	sig0 record <events.ndjson> <keys.json> <n> <alg,alg,...> <ar:0|1> [only-id]
@@ -17,6 +19,7 @@
 package main
 
 import (
+	"bufio"
 	"bytes"
 	"crypto"
 	"crypto/ecdsa"
@@ -27,6 +30,7 @@ import (
 	"crypto/sha256"
 	"crypto/sha512"
 	"crypto/x509"
+	"embed"
 	"encoding/asn1"
 	"encoding/base64"
 	"encoding/binary"
@@ -142,6 +146,83 @@ func sigLen(alg uint8) int {
 		return 64
 	}
 	return 128
+}
+
+//go:embed testdata/*.private
+var testdata embed.FS
+
+// fixed RSA keys at the size limits of RFC 3110 (committed as BIND private-key text, made with crypto/rand
+// primes by this harness): generating 4096-bit keys in every run would be slow
+var fixedKeys = []string{"RSASHA1@4096", "RSASHA256@4096", "RSASHA512@4096", "RSASHA1@512", "RSASHA256@512"}
+
+func baseAlg(name string) string {
+	b, _, _ := strings.Cut(name, "@")
+	return b
+}
+
+func fixedKey(name string) key {
+	_, bits, _ := strings.Cut(name, "@")
+	b, err := testdata.ReadFile("testdata/rsa-" + bits + "-e65537-1.private")
+	if err != nil {
+		hx.Die("test data: %v", err)
+	}
+	m := map[string]*big.Int{}
+	sc := bufio.NewScanner(strings.NewReader(string(b)))
+	sc.Buffer(make([]byte, 1<<16), 1<<20)
+	for sc.Scan() {
+		if f, v, ok := strings.Cut(sc.Text(), ": "); ok {
+			if d, err := base64.StdEncoding.DecodeString(v); err == nil {
+				m[f] = new(big.Int).SetBytes(d)
+			}
+		}
+	}
+	p := &rsa.PrivateKey{PublicKey: rsa.PublicKey{N: m["Modulus"], E: int(m["PublicExponent"].Int64())}, D: m["PrivateExponent"], Primes: []*big.Int{m["Prime1"], m["Prime2"]}}
+	p.Precompute()
+	if err := p.Validate(); err != nil {
+		hx.Die("test data holds an invalid RSA key: %v", err)
+	}
+	e := big.NewInt(int64(p.E)).Bytes() // RFC 3110 section 2
+	pub := append(append([]byte{byte(len(e))}, e...), p.N.Bytes()...)
+	for _, flags := range []uint16{0, 256, 257, 1} { // Sign refuses key tag 0
+		k := &dns.KEY{DNSKEY: dns.DNSKEY{Hdr: dns.RR_Header{Name: "key.example.", Rrtype: dns.TypeKEY, Class: dns.ClassINET, Ttl: 3600},
+			Flags: flags, Protocol: 3, Algorithm: algByName[baseAlg(name)], PublicKey: base64.StdEncoding.EncodeToString(pub)}}
+		if k.KeyTag() != 0 {
+			return key{k, p}
+		}
+	}
+	hx.Die("fixed key has key tag 0")
+	return key{}
+}
+
+// signature length of a key: the modulus length for RSA (RFC 3110 section 3)
+func sigLenOf(k key) int {
+	if p, ok := k.priv.Public().(*rsa.PublicKey); ok {
+		return (p.N.BitLen() + 7) / 8
+	}
+	return sigLen(k.rr.Algorithm)
+}
+
+// collidingKEY: another RSA KEY record with the same owner, algorithm and KEY TAG: two 16-bit aligned words of
+// the modulus exchanged (the sum of RFC 4034 Appendix B does not see the order of the words).  nil: not RSA.
+func collidingKEY(k *dns.KEY) (*dns.KEY, crypto.PublicKey) {
+	pk, err := base64.StdEncoding.DecodeString(k.PublicKey)
+	if err != nil || (k.Algorithm != dns.RSASHA1 && k.Algorithm != dns.RSASHA256 && k.Algorithm != dns.RSASHA512) || pk[0] == 0 {
+		return nil, nil
+	}
+	modoff := 1 + int(pk[0])
+	i := modoff + 2
+	if (4+i)%2 == 1 {
+		i++
+	}
+	for j := i + 2; j+1 < len(pk); j += 2 {
+		if pk[i] != pk[j] || pk[i+1] != pk[j+1] {
+			b := append([]byte(nil), pk...)
+			b[i], b[i+1], b[j], b[j+1] = pk[j], pk[j+1], pk[i], pk[i+1]
+			pub := &rsa.PublicKey{N: new(big.Int).SetBytes(b[modoff:]), E: int(new(big.Int).SetBytes(b[1:modoff]).Int64())}
+			return withPublic(k, b), pub
+		}
+	}
+	return nil, nil
 }
 
 func genKey(alg uint8) key {
@@ -282,7 +363,8 @@ const (
 	idxLarge3k   = 6
 	idxLarge20k  = 7
 	idxPresigned = 8
-	nSpecial     = 9
+	idxFixedKeys = 9 // a small message signed with the committed 4096-bit and 512-bit RSA keys
+	nSpecial     = 10
 )
 
 func specialMsg(r *mrand.Rand, i int) (msgCase, bool) {
@@ -303,6 +385,9 @@ func specialMsg(r *mrand.Rand, i int) (msgCase, bool) {
 			m.Answer = append(m.Answer, randRR(r, zones[r.Intn(2)], false))
 		}
 		return msgCase{m, "key.example.", 0}, true
+	case idxFixedKeys:
+		m.Answer = append(m.Answer, randRR(r, "example.org.", true), randRR(r, "example.org.", false))
+		return msgCase{m, "key.example.", 0}, false
 	default: // idxPresigned
 		m.Compress = r.Intn(2) == 0
 		old := &dns.SIG{RRSIG: dns.RRSIG{Hdr: dns.RR_Header{Name: ".", Rrtype: dns.TypeSIG, Class: dns.ClassANY}, Algorithm: 15, Expiration: r.Uint32(), Inception: r.Uint32(),
@@ -412,6 +497,7 @@ type evSign struct {
 	Signer   hx.B   `json:"signer"`
 	SigLen   int    `json:"siglen"`
 	Window   int    `json:"window"`
+	Reused   bool   `json:"reused"` // the SIG value had signed another message before
 	Ok       bool   `json:"ok"`
 	ErrClass string `json:"errclass"`
 	Err      string `json:"err"`
@@ -438,6 +524,11 @@ func record(out, keysPath string, n int, algs []string, ar bool, only int) {
 		}
 		ks[a+"/0"], ks[a+"/1"] = genKey(alg), genKey(alg)
 	}
+	if ar {
+		for _, f := range fixedKeys {
+			ks[f+"/0"], ks[f+"/1"] = fixedKey(f), ks[baseAlg(f)+"/1"]
+		}
+	}
 	saveKeys(keysPath, now, ks)
 	seen := map[string]bool{}
 	for i := 0; i < n; i++ {
@@ -446,7 +537,9 @@ func record(out, keysPath string, n int, algs []string, ar bool, only int) {
 		msgAlgs := algs
 		if ar && i < nSpecial {
 			var every bool
-			if c, every = specialMsg(r, i); every {
+			if c, every = specialMsg(r, i); i == idxFixedKeys {
+				msgAlgs = fixedKeys
+			} else if every {
 				msgAlgs = all
 				if i == idxLarge20k && !hx.Thorough() { // quick: ED25519 (its "hash" is the message itself) and one more
 					msgAlgs = []string{"ED25519", algs[0]}
@@ -472,8 +565,19 @@ func record(out, keysPath string, n int, algs []string, ar bool, only int) {
 			k := ks[a+"/0"]
 			inc, exp := window(c.window, now)
 			sig := &dns.SIG{RRSIG: dns.RRSIG{Algorithm: k.rr.Algorithm, Inception: inc, Expiration: exp, KeyTag: k.rr.KeyTag(), SignerName: c.signer}}
-			e := evSign{Ev: "sign", Id: id, Msg: hx.FromBytes(packed), Compress: c.m.Compress, AlgName: a, Alg: int(k.rr.Algorithm),
-				Exp: be32(exp), Inc: be32(inc), KeyTag: int(sig.KeyTag), Signer: hx.FromString(c.signer), SigLen: sigLen(k.rr.Algorithm), Window: c.window}
+			// every fourth random message: the SIG value has been used to sign another message before (the natural
+			// way to use the API: fill the fields in again, sign the next message)
+			reused := !(ar && i < nSpecial) && i%4 == 1
+			if reused {
+				warm := new(dns.Msg)
+				warm.SetQuestion("earlier.message.example.", dns.TypeSOA)
+				if _, err := sig.Sign(k.priv, warm); err != nil {
+					hx.Die("signing the warm-up query: %v", err)
+				}
+				sig.Algorithm, sig.Inception, sig.Expiration, sig.KeyTag, sig.SignerName = k.rr.Algorithm, inc, exp, k.rr.KeyTag(), c.signer
+			}
+			e := evSign{Ev: "sign", Id: id, Msg: hx.FromBytes(packed), Compress: c.m.Compress, AlgName: a, Alg: int(k.rr.Algorithm), Reused: reused,
+				Exp: be32(exp), Inc: be32(inc), KeyTag: int(sig.KeyTag), Signer: hx.FromString(c.signer), SigLen: sigLenOf(k), Window: c.window}
 			var res []byte
 			var serr error
 			if p := hx.Catch(func() { res, serr = sig.Sign(k.priv, c.m) }); p != "" {
@@ -604,6 +708,7 @@ func finish(eventsPath, emitPath, keysPath, verifyPath string) {
 	w := hx.NewWriter(verifyPath)
 	defer w.Close()
 	tampered, truncated, stdchecked, built := 0, 0, 0, 0
+	collideFirst := map[string]bool{}
 	var later []func()
 	hx.ReadNDJSON(eventsPath, func(i int, e *evSign) {
 		em := ems[e.Id]
@@ -669,6 +774,19 @@ func finish(eventsPath, emitPath, keysPath, verifyPath string) {
 				}
 				ol := make([]byte, otherLen)
 				copy(ol, pk)
+				if cb, cpub := collidingKEY(keyrr); cb != nil {
+					// a different RSA KEY with the same owner, algorithm and key tag; which of the two is tried first
+					// alternates from one (signer, key) to the next
+					ck := signer + "|" + e.AlgName
+					if _, ok := collideFirst[ck]; !ok {
+						collideFirst[ck] = len(collideFirst)%2 == 1
+					}
+					if collideFirst[ck] {
+						vs = append([]variant{{"key-collide", cb, cpub}}, vs...)
+					} else {
+						vs = append(vs, variant{"key-collide", cb, cpub})
+					}
+				}
 				vs = append(vs,
 					variant{"owner-other", withOwner(k0.rr, "other."+signer), k0.priv.Public()},
 					variant{"owner-parent", withOwner(k0.rr, "example."), k0.priv.Public()},
